@@ -2,7 +2,7 @@
 // (through the Alloc template parameter), under ASan/UBSan.
 //   replay_history <dir with A.fits B.fits bad.fits bad2.fits> [failalloc:<k>] <token> ...      token = <object>:<op>[:<arg>[:<arg>]]
 //   failalloc:<k> makes the k-th allocate<T>() issued inside read / fit / convolve operations throw std::bad_alloc
-// ops: moveassign:<source object>  movector:<source object>  read:<file>  fit:ok1|ok2|badargs  key:<K>:<V>  rmkey:<K>  convolve:<dim>:<n>  permute:rev|bad  write:<file>  cmpkeys:<other object>
+// ops: equals:<other object>  moveassign:<source object>  movector:<source object>  read:<file>  fit:ok1|ok2|badargs  key:<K>:<V>  rmkey:<K>  convolve:<dim>:<n>  permute:rev|bad  write:<file>  cmpkeys:<other object>
 // Prints one line per operation and, after destroying the objects, the bytes never returned to the allocator and the
 // number of deallocations with a wrong size / unknown pointer.  Exit 1 if any of those is non-zero, 3 for an unsupported op.
 #include <photospline/splinetable.h>
@@ -55,6 +55,7 @@ int main(int argc,char**argv){
 				else if(op=="convolve"){ unsigned d=atoi(tk[2].c_str()), n=atoi(tk[3].c_str()); if(t.get_ndim()==0||d>=t.get_ndim()) res="skipped"; else{ std::vector<double> k(n); for(unsigned i=0;i<n;i++) k[i]=-0.5+i*(1.0/(n-1))+0.01*i*i; t.convolve(d,k.data(),n);} }
 				else if(op=="permute"){ uint32_t nd=t.get_ndim(); std::vector<size_t> p; if(tk[2]=="rev"){ for(uint32_t i=0;i<nd;i++) p.push_back(nd-1-i);} else { p.assign(nd?nd:1, nd==1?1:0);} t.permuteDimensions(p); }
 				else if(op=="write") t.write_fits(dir+"/"+tk[2]+".fits");
+				else if(op=="equals"){ bool e=(t==*objs[atoi(tk[2].c_str())]); res = e ? "equal" : "different"; }
 				else if(op=="moveassign" || op=="movector"){
 					int si=atoi(tk[2].c_str()), ti=atoi(tk[0].c_str());
 					if(op=="movector"){ if(si!=ti){ objs[ti].reset(new table_t(std::move(*objs[si]))); } else res="skipped"; }
